@@ -809,7 +809,12 @@ def unloaded_code(repo):
     if not em:
         die("evil.rs: `.map(|certs: HashMap<String, Vec<String>>| {` (the certificate fold) not found")
     fold = norm(se.src[em.end() - 1:match_close(se.s, em.end() - 1) + 1])
+    bm = re.search(r"for\s+reg\s+in\s+&exception_details\s*\.\s*instruction_registers\s*\{", sc.s)
+    if not bm:
+        die("processor.rs: `for reg in &exception_details.instruction_registers {` (check_for_bitflips) not found")
+    regloop = norm(sc.src[bm.start():match_close(sc.s, bm.end() - 1) + 1])
     return [("processor/evil.rs", "handle_evil", fold),
+            ("processor/processor.rs", "check_for_bitflips", regloop),
             ("processor/processor.rs", "into_process_state/walk future", block),
             ("processor/processor.rs", "new", fallback),
             ("minidump/minidump.rs", "MinidumpUnloadedModuleList::modules_at_address", at),
